@@ -8,6 +8,11 @@ Correspondence
   (i') the exact built-in specs the theorems speak about (Minkowski p=1, p=2 squared, MSM identity / inverse
        variance on a token moment calculator) are compared with the real classes (check_spec_case);
   (ii) relational runs of every built-in loss (direct oracle of the property statement).
+Round 4 (generator sweep): the same three parts over the other representations of the inputs (dtypes, memory layouts, read-only
+arrays, far-from-origin / tiny / huge values, weights as tuple / float32 / numpy scalars, filters as object array / identity view /
+memoising / one object for several coordinates), one object used again (attributes reassigned, other shapes, arrays overwritten
+in place by the caller, rejected evaluations in between, other data first), two evaluations at the same time, sim length !=
+data length, series of length 3-5, more than ten coordinates, option values of another numeric type, non-finite data.
 """
 from __future__ import annotations
 
@@ -16,6 +21,7 @@ import json
 import common
 import re
 import struct
+import threading
 import warnings
 from collections import Counter
 from fractions import Fraction
@@ -28,6 +34,79 @@ IMPORTS = "From Coq Require Import List QArith.\nFrom BlackIt Require Import Mod
 CASE_T = "case"
 SPEC_T = "spec_case"
 RTOL = 1e-9
+
+
+# ====================================================================================================
+# round 4: representations of the inputs (the property quantifies over "all data, weights, filters")
+# ====================================================================================================
+DTYPES = {"f8": np.float64, "f4": np.float32, "f2": np.float16, "i8": np.int64, "i4": np.int32}
+LAYOUTS = ["C", "F", "strided", "coordstrided", "transposed", "negstride"]
+
+
+def represent(a, rep):
+    """The logical array `a` (float64 values that the target dtype holds exactly) in the representation `rep` =
+    {"dtype": f8|f4|f2|i8|i4, "layout": C|F|strided|coordstrided|transposed|negstride, "readonly": bool}.
+    Returns (array handed to the loss, underlying buffer or None).  Non-contiguous layouts are views of a larger / reordered
+    buffer whose other cells hold the filler 77: the loss may neither read them as data nor write them."""
+    rep = rep or {}
+    a = np.asarray(a, dtype=float)
+    b = a.astype(DTYPES[rep.get("dtype", "f8")])
+    if not np.array_equal(b.astype(float), a, equal_nan=True):
+        raise AssertionError(f"harness: data not representable as {rep.get('dtype')}")
+    lay = rep.get("layout", "C")
+    base = None
+    if lay == "F":
+        out = np.asfortranarray(b)
+    elif lay in ("strided", "coordstrided") and b.ndim >= 2:
+        ax = b.ndim - 2 if lay == "strided" else b.ndim - 1
+        shape = list(b.shape)
+        shape[ax] = 2 * shape[ax] + 1
+        base = np.full(shape, 77, dtype=b.dtype)
+        idx = [slice(None)] * b.ndim
+        idx[ax] = slice(1, None, 2)
+        base[tuple(idx)] = b
+        out = base[tuple(idx)]
+    elif lay == "transposed":
+        base = np.ascontiguousarray(b.transpose())
+        out = base.transpose()
+    elif lay == "negstride" and b.ndim >= 2:
+        base = np.ascontiguousarray(b[..., ::-1, :])
+        out = base[..., ::-1, :]
+    else:
+        out = np.ascontiguousarray(b)
+    assert out.shape == a.shape and np.array_equal(out.astype(float), a, equal_nan=True)
+    if rep.get("readonly"):
+        out.setflags(write=False)
+    return out, base
+
+
+def snap_arr(x, base=None):
+    """everything a caller can observe of an array it handed over: logical content, dtype, shape, strides, writeability and the
+    whole underlying buffer"""
+    if not isinstance(x, np.ndarray):
+        return repr(x)
+    return (x.dtype.str, x.shape, x.strides, bool(x.flags.writeable), x.tobytes(), None if base is None else base.tobytes())
+
+
+def overwrite(dst, src):
+    """the CALLER changes its own array in place (allowed whatever the flag it handed over)"""
+    w = dst.flags.writeable
+    if not w:
+        dst.setflags(write=True)
+    dst[...] = src
+    if not w:
+        dst.setflags(write=False)
+
+
+def gen_repr(rng, dtypes=("f8", "f4", "f2", "i8", "i4")):
+    """half of the cases keep the plain representation (float64, C order, writeable)"""
+    if rng.below(2) == 0:
+        return {"dtype": "f8", "layout": "C", "readonly": False}
+    return {"dtype": "f8" if rng.below(3) == 0 else rng.choice(list(dtypes)),
+            "layout": "C" if rng.below(3) == 0 else rng.choice(LAYOUTS), "readonly": rng.below(3) == 0}
+
+
+W_AS = ["array", "list", "intarray", "intlist", "tuple", "f4array", "npscalars", "roarray", "stridedarray"]
 
 
 # ====================================================================================================
@@ -58,6 +137,18 @@ def py_filter(tok):
         return lambda x: np.cumsum(x)
     if kind == "square":
         return lambda x: x * x
+    if kind == "ident":
+        return lambda x: x                      # hands back the very view of the caller's array it was given
+    if kind == "memoaffine":
+        a, b = float(tok[1]), float(tok[2])
+        memo = {}
+
+        def f(x):                               # a memoising user filter: the same array OBJECT for a repeated series
+            key = (x.dtype.str, np.asarray(x).tobytes())
+            if key not in memo:
+                memo[key] = a * x + b
+            return memo[key]
+        return f
     raise ValueError(kind)
 
 
@@ -66,8 +157,10 @@ def exact_filter(tok, s):
     if tok is None:
         return list(s)
     kind = tok[0]
-    if kind == "affine":
+    if kind in ("affine", "memoaffine"):
         return [fr(tok[1]) * x + fr(tok[2]) for x in s]
+    if kind == "ident":
+        return list(s)
     if kind == "reverse":
         return list(reversed(s))
     if kind == "cumsum":
@@ -85,8 +178,10 @@ def coq_filter(tok):
     if tok is None:
         return "None"
     kind = tok[0]
-    if kind == "affine":
+    if kind in ("affine", "memoaffine"):
         return f"(Some (FAffine {cq(tok[1])} {cq(tok[2])}))"
+    if kind == "ident":
+        return "(Some (FAffine 1 0))"
     return {"reverse": "(Some FReverse)", "cumsum": "(Some FCumsum)", "square": "(Some FSquare)"}[kind]
 
 
@@ -97,13 +192,26 @@ def token_class():
         def __init__(self, w, f):
             super().__init__(w, f)
             self.log = []
+            self.tlog = {}          # per calling thread (round 4: concurrent evaluations of one object)
+            self.barrier = None
 
         def compute_loss_1d(self, sim_data_ensemble, real_data):
-            self.log.append((np.array(sim_data_ensemble, dtype=float, copy=True), np.array(real_data, dtype=float, copy=True)))
+            entry = (np.array(sim_data_ensemble, dtype=float, copy=True), np.array(real_data, dtype=float, copy=True))
+            self.log.append(entry)
+            tid = threading.current_thread().name     # (the harness names its threads; get_ident() values are reused)
+            first = tid not in self.tlog
+            self.tlog.setdefault(tid, []).append(entry)
             ens = [[fr(x) for x in s] for s in np.asarray(sim_data_ensemble)]
             v = token_l1_exact(ens, [fr(x) for x in np.asarray(real_data)])
             f = float(v)
             assert Fraction(f) == v, "token value not representable"
+            if first and self.barrier is not None:
+                # every thread stops inside its first single-coordinate evaluation until all the others are inside theirs: each
+                # evaluation has then started (weights / filters checked, data filtered) before any of them has accumulated anything
+                try:
+                    self.barrier.wait(timeout=1.0)
+                except threading.BrokenBarrierError:
+                    pass            # an implementation that serialises evaluations is still pure
             return f
 
     return TokenLoss
@@ -113,6 +221,26 @@ def dy(rng, lo, hi, den):
     return rng.randint(lo * den, hi * den) / den
 
 
+TOKEN_FILTER_KINDS = ["reverse", "cumsum", "square"]
+
+
+def _token_wlist(rng, n):
+    return [dy(rng, -2, 2, 8) if rng.below(6) else 0.0 for _ in range(n)]
+
+
+def _token_flist(rng, n, new=False):
+    out = []
+    for _ in range(n):
+        if new and out and rng.below(4) == 0:
+            out.append(rng.choice(out))          # the same filter (object) for several coordinates
+            continue
+        k = rng.below(9 if new else 7)
+        out.append(None if k < 2 else ("affine", dy(rng, -2, 2, 4), dy(rng, -2, 2, 4)) if k < 4
+                   else ("reverse",) if k == 4 else ("cumsum",) if k == 5 else ("square",) if k == 6
+                   else ("ident",) if k == 7 else ("memoaffine", dy(rng, -2, 2, 4), dy(rng, -2, 2, 4)))
+    return out
+
+
 def gen_token_case(rng):
     D = 0 if rng.below(25) == 0 else rng.randint(1, 5)
     E, N = rng.randint(1, 4), rng.randint(3, 12)
@@ -120,15 +248,10 @@ def gen_token_case(rng):
     real = [[dy(rng, -4, 4, 8) for _ in range(D)] for _ in range(N)]  # (N,D)
 
     def wlist(n):
-        return [dy(rng, -2, 2, 8) if rng.below(6) else 0.0 for _ in range(n)]
+        return _token_wlist(rng, n)
 
     def flist(n):
-        out = []
-        for _ in range(n):
-            k = rng.below(7)
-            out.append(None if k < 2 else ("affine", dy(rng, -2, 2, 4), dy(rng, -2, 2, 4)) if k < 4
-                       else ("reverse",) if k == 4 else ("cumsum",) if k == 5 else ("square",))
-        return out
+        return _token_flist(rng, n)
 
     def wrong(n):
         c = [x for x in (n - 1, n + 1, n + 2, 0) if x >= 0 and x != n]
@@ -148,11 +271,75 @@ def gen_token_case(rng):
     w_as = rng.choice(["array", "list", "intarray", "intlist"])
     if w_as.startswith("int") and weights is not None:
         weights = [float(round(x)) for x in weights]          # whole numbers, so that they can be given with an integer dtype
-    return {"part": "token", "D": D, "E": E, "N": N, "sim": sim, "real": real, "weights": weights, "filters": filters,
+    case = {"part": "token", "D": D, "E": E, "N": N, "sim": sim, "real": real, "weights": weights, "filters": filters,
             "w_as": w_as, "f_as": rng.choice(["list", "tuple"]),
             "rel": rng.choice(["perm", "onehot", "zero", "linear"]),
             "perm": _perm(rng, D), "w2": wlist(D), "a": dy(rng, -2, 2, 4), "b": dy(rng, -2, 2, 4),
             "j": rng.below(max(D, 1))}
+    if rng.below(3):
+        case = widen_token_case(rng, case)
+    return case
+
+
+def widen_token_case(rng, case):
+    """Round 4: the same logical case in one of the other representations the property quantifies over - data as float32 /
+    float16 / int64 / int32, Fortran-ordered / strided / transposed / reversed views, read-only arrays, at a level (65536) that is
+    large relative to its O(1) variation, signed zeros; weights as tuple / float32 array / list of numpy scalars / read-only or
+    strided array, all of them tiny (2^-40: nothing an `isclose` would still call non-zero) or huge (2^30), -0.0 for a zero
+    weight, more than ten coordinates; filters as an object array, identity filters that hand back the caller's own view,
+    memoising filters.  Every variant is kept only when the user-side arithmetic (the filters, the token loss, the products and
+    their sums) is EXACT on it, so that the comparison stays an equality."""
+    import copy
+
+    c = copy.deepcopy(case)
+    D, E, N = c["D"], c["E"], c["N"]
+    c["rep_sim"], c["rep_real"] = gen_repr(rng), gen_repr(rng)
+    if rng.below(10) == 0 and D >= 1:                                   # more than ten coordinates
+        D2 = rng.randint(11, 13)
+        c["N"] = N = rng.randint(3, 5)
+        c["sim"] = [[[dy(rng, -4, 4, 8) for _ in range(D2)] for _ in range(N)] for _ in range(E)]
+        c["real"] = [[dy(rng, -4, 4, 8) for _ in range(D2)] for _ in range(N)]
+        if c["weights"] is not None and len(c["weights"]) == D:
+            c["weights"] = _token_wlist(rng, D2)
+        if c["filters"] is not None and len(c["filters"]) == D:
+            c["filters"] = _token_flist(rng, D2, new=True)
+        c["w2"], c["perm"], c["j"] = _token_wlist(rng, D2), _perm(rng, D2), rng.below(D2)
+        c["D"] = D = D2
+    if c["filters"] is not None:
+        c["filters"] = [t if rng.below(4) else rng.choice([("ident",), ("memoaffine", dy(rng, -2, 2, 4), dy(rng, -2, 2, 4))])
+                        for t in c["filters"]]
+        if len(c["filters"]) >= 2 and rng.below(3) == 0:      # the same filter (object) for two coordinates
+            a_, b_ = rng.below(len(c["filters"])), rng.below(len(c["filters"]))
+            c["filters"][b_] = c["filters"][a_]
+    for key, rp in (("sim", c["rep_sim"]), ("real", c["rep_real"])):
+        if rp["dtype"] in ("i8", "i4"):
+            c[key] = (np.round(np.array(c[key], dtype=float))).tolist()
+    level = 65536.0 if rng.below(4) == 0 and c["rep_sim"]["dtype"] in ("f8", "i8") and c["rep_real"]["dtype"] in ("f8", "i8") else 0.0
+    if level:
+        c["level"] = level
+        c["sim"] = (np.array(c["sim"], dtype=float).reshape(E, N, D) + level).tolist()
+        c["real"] = (np.array(c["real"], dtype=float).reshape(N, D) + level).tolist()
+    if rng.below(5) == 0:                                               # signed zeros in the data
+        for key in ("sim", "real"):
+            a = np.array(c[key], dtype=float)
+            a[a == 0.0] = -0.0
+            c[key] = a.tolist()
+    ws = rng.choice([1.0, 1.0, 2.0 ** -40, 2.0 ** 30])
+    if ws != 1.0:
+        c["wscale"] = ws
+        if c["weights"] is not None:
+            c["weights"] = [x * ws for x in c["weights"]]
+        c["w2"] = [x * ws for x in c["w2"]]
+    if rng.below(4) == 0:
+        if c["weights"] is not None:
+            c["weights"] = [(-0.0 if x == 0.0 else x) for x in c["weights"]]
+    c["w_as"] = rng.choice(W_AS)
+    if c["w_as"].startswith("int") and c["weights"] is not None:
+        c["weights"] = [float(round(x)) for x in c["weights"]]
+    c["f_as"] = rng.choice(["list", "tuple", "objarray"])
+    if token_case_exact(c):
+        return c
+    return case
 
 
 def _perm(rng, n):
@@ -161,22 +348,50 @@ def _perm(rng, n):
     return p
 
 
-def _arrays(case):
+def _arrays2(case):
+    """(sim, real, sim buffer, real buffer) in the case's representation"""
     D, E, N = case["D"], case["E"], case["N"]
-    sim = np.array(case["sim"], dtype=float).reshape(E, N, D)
-    real = np.array(case["real"], dtype=float).reshape(N, D)
-    return sim, real
+    sim, bs = represent(np.array(case["sim"], dtype=float).reshape(E, N, D), case.get("rep_sim"))
+    real, br = represent(np.array(case["real"], dtype=float).reshape(N, D), case.get("rep_real"))
+    return sim, real, bs, br
+
+
+def _arrays(case):
+    return _arrays2(case)[:2]
 
 
 def _as_weights(case, w):
     """weights as the caller may legitimately give them: float array, list of floats, or - when every weight is a whole number -
-    an INTEGER-typed array / list of Python ints (e.g. np.array([2, 1, 3]) or a 0/1 mask)"""
+    an INTEGER-typed array / list of Python ints (e.g. np.array([2, 1, 3]) or a 0/1 mask); round 4: a tuple, a float32 array
+    (when it holds the values exactly), a list of numpy scalars of mixed types, a read-only array, a strided view"""
     if w is None:
         return None
     kind = case.get("w_as", "array")
     if kind.startswith("int") and all(float(x).is_integer() for x in w):
         return np.array([int(x) for x in w], dtype=np.int64) if kind == "intarray" else [int(x) for x in w]
-    return np.array(w, dtype=float) if kind in ("array", "intarray") else list(w)
+    if kind == "tuple":
+        return tuple(float(x) for x in w)
+    if kind == "f4array" and all(float(np.float32(x)) == float(x) for x in w):
+        return np.array(w, dtype=np.float32)
+    if kind == "npscalars":
+        out = []
+        for k, x in enumerate(w):
+            if k % 3 == 1 and float(np.float32(x)) == float(x):
+                out.append(np.float32(x))
+            elif k % 3 == 2 and float(x).is_integer() and abs(x) < 2 ** 31:
+                out.append(np.int32(int(x)))
+            else:
+                out.append(np.float64(x))
+        return out
+    if kind == "roarray":
+        a = np.array(w, dtype=float)
+        a.setflags(write=False)
+        return a
+    if kind == "stridedarray":
+        base = np.full(2 * len(w) + 1, 77.0)
+        base[1::2] = w
+        return base[1::2]
+    return np.array(w, dtype=float) if kind in ("array", "intarray", "f4array") else list(w)
 
 
 def _mk_w(case, w):
@@ -186,39 +401,122 @@ def _mk_w(case, w):
 def _mk_f(case, f):
     if f is None:
         return None
-    fl = [py_filter(t) for t in f]
+    same = {}                # one filter OBJECT for equal filter tokens: the same callable may be given for several coordinates
+    fl = [None if t is None else same.setdefault(json.dumps(t), py_filter(t)) for t in f]
+    if case["f_as"] == "objarray":
+        a = np.empty(len(fl), dtype=object)
+        for k, x in enumerate(fl):
+            a[k] = x
+        return a
     return fl if case["f_as"] == "list" else tuple(fl)
+
+
+def _snap_w(w):
+    if isinstance(w, np.ndarray):
+        return snap_arr(w, w.base if isinstance(w.base, np.ndarray) else None)
+    return (type(w).__name__, repr([(type(x).__name__, repr(x)) for x in w])) if w is not None else None
 
 
 MSG = re.compile(r"the length of coordinate_(weights|filters) should be equal to the number of coordinates, got (\d+) and (\d+)")
 
 
-def eval_token(case, weights, filters, sim, real):
+def _outcome(fn):
+    try:
+        v = float(fn())
+        if not np.isfinite(v):      # impossible for finite weights and the (finite) token values
+            return ("err", "non-finite value", None, -1, -1, repr(v))
+        return ("val", v)
+    except Exception as e:  # noqa: BLE001
+        m = MSG.search(str(e))
+        return ("err", type(e).__name__, m.group(1) if m else None, int(m.group(2)) if m else -1,
+                int(m.group(3)) if m else -1, str(e)[:120])
+
+
+def eval_token(case, weights, filters, sim, real, bases=(None, None)):
     """one evaluation of the real compute_loss with the token loss; returns (outcome, log, purity_ok)"""
     Token = token_class()
     w = _mk_w(case, weights)
     obj = Token(w, _mk_f(case, filters))
-    b_sim, b_real = sim.tobytes(), real.tobytes()
-    b_w = w.tobytes() if isinstance(w, np.ndarray) else repr(w)
-    try:
-        v = obj.compute_loss(sim, real)
-        out = ("val", float(v))
-    except Exception as e:  # noqa: BLE001
-        m = MSG.search(str(e))
-        out = ("err", type(e).__name__, m.group(1) if m else None, int(m.group(2)) if m else -1,
-               int(m.group(3)) if m else -1, str(e)[:120])
-    pure = (sim.tobytes() == b_sim and real.tobytes() == b_real
-            and (w.tobytes() if isinstance(w, np.ndarray) else repr(w)) == b_w)
+    before = (snap_arr(sim, bases[0]), snap_arr(real, bases[1]), _snap_w(w))
+    out = _outcome(lambda: obj.compute_loss(sim, real))
+    pure = before == (snap_arr(sim, bases[0]), snap_arr(real, bases[1]), _snap_w(w))
     return out, obj.log, pure
 
 
+def _token_weight_vectors(case, rel=True):
+    """every weight vector the evaluations of run_token use on the case (for the exactness pre-check)"""
+    D, ws = case["D"], case["weights"]
+    if ws is not None and len(ws) != D:
+        return []
+    out = [[Fraction(1, max(D, 1))] * D if ws is None else [fr(x) for x in ws]]
+    if D >= 1 and rel:
+        w1 = list(ws) if ws is not None else [1.0] * D
+        w2, a, b = case["w2"], case["a"], case["b"]
+        w3 = [a * x + b * y for x, y in zip(w1, w2)]
+        if any(fr(z) != fr(a) * fr(x) + fr(b) * fr(y) for x, y, z in zip(w1, w2, w3)):
+            return None
+        w0 = list(ws) if ws is not None else list(w2)
+        w0[case["j"]] = 0.0
+        out += [[fr(x) for x in v] for v in (w1, w2, w3, w0)]
+    return out
+
+
+def token_case_exact(case, rel=True):
+    """True when the user-side arithmetic is exact on the case in its representation: the numpy filters give the mathematical
+    filter on the represented columns, the token values are floats, every product weight * value lies on one binary grid on
+    which all their sums (in any order) are floats.  Judges the harness's own ingredients only - never the code under test."""
+    D, E, N = case["D"], case["E"], case["N"]
+    fs = case["filters"]
+    if fs is not None and len(fs) != D:
+        fs = None
+    try:
+        sim, real, _, _ = _arrays2(case)
+    except AssertionError:
+        return False
+    l1 = []
+    with np.errstate(all="ignore"):
+        for i in range(D):
+            tok = None if fs is None else fs[i]
+            ens = []
+            for e in range(E):
+                col = sim[e, :, i]
+                want = exact_filter(tok, [fr(x) for x in col])
+                f = py_filter(tok)
+                got = col if f is None else np.asarray(f(col))
+                if [fr(x) for x in got] != want:
+                    return False
+                ens.append(want)
+            v = token_l1_exact(ens, [fr(x) for x in real[:, i]])
+            if Fraction(float(v)) != v:
+                return False
+            l1.append(v)
+    wvs = _token_weight_vectors(case, rel)
+    if wvs is None:
+        return False
+    for k, wv in enumerate(wvs):
+        prods = [w * v for w, v in zip(wv, l1)]
+        nz = [p for p in prods if p != 0]
+        if not nz:
+            continue
+        if k == 0 and case["weights"] is None and D not in (1, 2, 4, 8):
+            continue                                   # 1/D is rounded: judged with the 1e-12 tolerance of token_tol
+        g = max(p.denominator for p in nz)             # denominators are powers of two
+        if g & (g - 1):
+            return False
+        if sum(abs(p) for p in nz) * g >= 2 ** 52 or any(Fraction(float(p)) != p for p in nz):
+            return False
+    return True
+
+
 def run_token(case):
-    sim, real = _arrays(case)
-    out, log, pure = eval_token(case, case["weights"], case["filters"], sim, real)
+    sim, real, bs, br = _arrays2(case)
+    out, log, pure = eval_token(case, case["weights"], case["filters"], sim, real, (bs, br))
     obs = {"out": list(out), "log": [(e.tolist(), r.tolist()) for e, r in log], "pure": pure, "rel": None}
     D = case["D"]
-    # one relational run per case (only meaningful when the base evaluation returned)
-    if out[0] == "val" and D >= 1:
+    # one relational run per case (only meaningful when the base evaluation returned - and was right to: a wrong-length list
+    # that was accepted is the oracle's business)
+    lengths_ok = all(x is None or len(x) == D for x in (case["weights"], case["filters"]))
+    if out[0] == "val" and D >= 1 and lengths_ok:
         ws = case["weights"] if case["weights"] is not None else None
         fs = case["filters"]
         rel = case["rel"]
@@ -230,16 +528,15 @@ def run_token(case):
         elif rel == "onehot":
             j = case["j"]
             oh = [1.0 if i == j else 0.0 for i in range(D)]
-            o2, _, _ = eval_token(case, oh, fs, sim, real)
-            o3, _, _ = eval_token(case, [1.0], None if fs is None else [fs[j]], np.ascontiguousarray(sim[:, :, j:j + 1]),
-                                  np.ascontiguousarray(real[:, j:j + 1]))
+            o2, _, _ = eval_token(case, oh, fs, sim, real, (bs, br))
+            o3, _, _ = eval_token(case, [1.0], None if fs is None else [fs[j]], sim[:, :, j:j + 1], real[:, j:j + 1])
             obs["rel"] = ["onehot", list(o2), list(o3)]
         elif rel == "zero" and D >= 2:
             j = case["j"]
             w0 = list(ws) if ws is not None else list(case["w2"])
             w0[j] = 0.0
             keep = [i for i in range(D) if i != j]
-            o2, _, _ = eval_token(case, w0, fs, sim, real)
+            o2, _, _ = eval_token(case, w0, fs, sim, real, (bs, br))
             o3, _, _ = eval_token(case, [w0[i] for i in keep], None if fs is None else [fs[i] for i in keep],
                                   np.ascontiguousarray(sim[:, :, keep]), np.ascontiguousarray(real[:, keep]))
             obs["rel"] = ["zero", list(o2), list(o3)]
@@ -247,10 +544,134 @@ def run_token(case):
             w1 = list(ws) if ws is not None else [1.0] * D
             w2, a, b = case["w2"], case["a"], case["b"]
             w3 = [a * x + b * y for x, y in zip(w1, w2)]
-            o1, _, _ = eval_token(case, w1, fs, sim, real)
-            o2, _, _ = eval_token(case, w2, fs, sim, real)
-            o3, _, _ = eval_token(case, w3, fs, sim, real)
+            o1, _, _ = eval_token(case, w1, fs, sim, real, (bs, br))
+            o2, _, _ = eval_token(case, w2, fs, sim, real, (bs, br))
+            o3, _, _ = eval_token(case, w3, fs, sim, real, (bs, br))
             obs["rel"] = ["linear", list(o1), list(o2), list(o3)]
+    return obs
+
+
+# ====================================================================================================
+# part (i''), round 4: ONE token loss object used again - reassigned attributes, other shapes, arrays changed in place by the
+# caller, rejected evaluations in between, concurrent evaluations
+# ====================================================================================================
+def _token_step(rng, D, E, N, weights, filters, w_as, f_as, reps, how):
+    ints_s, ints_r = reps[0]["dtype"] in ("i8", "i4"), reps[1]["dtype"] in ("i8", "i4")
+
+    def val(ints):
+        return float(rng.randint(-4, 4)) if ints else dy(rng, -4, 4, 8)
+
+    return {"part": "token", "D": D, "E": E, "N": N, "how": how,
+            "sim": [[[val(ints_s) for _ in range(D)] for _ in range(N)] for _ in range(E)],
+            "real": [[val(ints_r) for _ in range(D)] for _ in range(N)],
+            "weights": weights, "filters": filters, "w_as": w_as, "f_as": f_as, "rep_sim": reps[0], "rep_real": reps[1]}
+
+
+def gen_tokenseq_case(rng):
+    """a history of evaluations of one object; every step records the weights / filters IN FORCE at that step"""
+    def reps():
+        return (gen_repr(rng, ("f8", "f4", "i8", "i4")), gen_repr(rng, ("f8", "f4", "i8", "i4")))
+
+    def pick_w(D, allow_wrong=True):
+        k = rng.below(8)
+        if k == 0:
+            return None
+        if k == 1 and allow_wrong:
+            return _token_wlist(rng, rng.choice([x for x in (D - 1, D + 1, D + 2, 0) if x >= 0 and x != D]))
+        return _token_wlist(rng, D)
+
+    def pick_f(D, allow_wrong=True):
+        k = rng.below(8)
+        if k < 2:
+            return None
+        if k == 2 and allow_wrong:
+            return _token_flist(rng, rng.choice([x for x in (D - 1, D + 1, D + 2, 0) if x >= 0 and x != D]), new=True)
+        return _token_flist(rng, D, new=True)
+
+    for _ in range(50):
+        threads = rng.below(4) == 0
+        w_as, f_as = rng.choice(W_AS), rng.choice(["list", "tuple", "objarray"])
+        steps = []
+        if threads:
+            K = rng.randint(2, 3)
+            shared_none = rng.below(2) == 0
+            D0 = rng.randint(1, 4)
+            w = None if shared_none else _token_wlist(rng, D0)
+            f = None if shared_none or rng.below(2) else _token_flist(rng, D0, new=True)
+            for k in range(K):
+                D = rng.randint(1, 5) if shared_none else D0
+                steps.append(_token_step(rng, D, rng.randint(1, 3), rng.randint(3, 8), w, f, w_as, f_as, reps(), "thread"))
+        else:
+            D = rng.randint(1, 4)
+            st = _token_step(rng, D, rng.randint(1, 3), rng.randint(3, 8), pick_w(D), pick_f(D), w_as, f_as, reps(), "new")
+            steps.append(st)
+            for _k in range(rng.randint(2, 5)):
+                prev = steps[-1]
+                how = rng.choice(["keep", "keep", "inplace", "reassign_w", "reassign_f", "reassign_both"])
+                w, f, D = prev["weights"], prev["filters"], prev["D"]
+                if how == "inplace":
+                    st = _token_step(rng, D, prev["E"], prev["N"], w, f, w_as, f_as, (prev["rep_sim"], prev["rep_real"]), how)
+                elif how == "keep":
+                    # the attributes are left alone; the data have another ensemble size and length - and, when neither weights
+                    # nor filters were given, another number of coordinates
+                    D2 = rng.randint(1, 5) if w is None and f is None and rng.below(2) else D
+                    st = _token_step(rng, D2, rng.randint(1, 3), rng.randint(3, 8), w, f, w_as, f_as, reps(), how)
+                else:
+                    D2 = rng.randint(1, 5) if rng.below(2) else D
+                    if how in ("reassign_w", "reassign_both"):
+                        w = pick_w(D2)
+                    if how in ("reassign_f", "reassign_both"):
+                        f = pick_f(D2)
+                    st = _token_step(rng, D2, rng.randint(1, 3), rng.randint(3, 8), w, f, w_as, f_as, reps(), how)
+                steps.append(st)
+        if all(token_case_exact(st, rel=False) for st in steps):
+            return {"part": "tokenseq", "threads": threads, "steps": steps}
+    raise AssertionError("harness: no exact token sequence in 50 draws")
+
+
+def run_tokenseq(case):
+    Token = token_class()
+    steps = case["steps"]
+    s0 = steps[0]
+    obj = Token(_mk_w(s0, s0["weights"]), _mk_f(s0, s0["filters"]))
+    obs = []
+
+    def one(st, sim, real, bs, br, log_of):
+        w = obj.coordinate_weights
+        before = (snap_arr(sim, bs), snap_arr(real, br), _snap_w(w))
+        out = _outcome(lambda: obj.compute_loss(sim, real))
+        pure = before == (snap_arr(sim, bs), snap_arr(real, br), _snap_w(obj.coordinate_weights))
+        return {"out": list(out), "log": [(e.tolist(), r.tolist()) for e, r in log_of()], "pure": pure, "rel": None}
+
+    if case["threads"]:
+        obj.barrier = threading.Barrier(len(steps))
+        res = [None] * len(steps)
+        arrs = [_arrays2(st) for st in steps]
+
+        def work(k):
+            res[k] = one(steps[k], *arrs[k], lambda: obj.tlog.get(f"c08-step-{k}", []))
+
+        ts = [threading.Thread(target=work, args=(k,), name=f"c08-step-{k}") for k in range(len(steps))]
+        for t in ts:
+            t.start()
+        for t in ts:
+            t.join()
+        return res
+    arrs = None
+    for k, st in enumerate(steps):
+        how = st["how"]
+        if k and how in ("reassign_w", "reassign_both"):
+            obj.coordinate_weights = _mk_w(st, st["weights"])
+        if k and how in ("reassign_f", "reassign_both"):
+            obj.coordinate_filters = _mk_f(st, st["filters"])
+        if how == "inplace":
+            # the caller writes the new data into the very arrays of the previous evaluation
+            overwrite(arrs[0], np.array(st["sim"], dtype=float).reshape(arrs[0].shape))
+            overwrite(arrs[1], np.array(st["real"], dtype=float).reshape(arrs[1].shape))
+        else:
+            arrs = _arrays2(st)
+        n0 = len(obj.log)
+        obs.append(one(st, *arrs, lambda: obj.log[n0:]))
     return obs
 
 
@@ -295,8 +716,8 @@ def oracle_token(case, obs):
     total = Fraction(0)
     for i in range(D):
         want_ens = [exact_filter(None if fs is None else fs[i], sim[e][i]) for e in range(E)]
-        got_ens = [[fr(x) for x in s] for s in obs["log"][i][0]]
-        got_real = [fr(x) for x in obs["log"][i][1]]
+        got_ens = [[fr(x) for x in s] for s in obs["log"][i][0]] if np.ndim(obs["log"][i][0]) == 2 else obs["log"][i][0]
+        got_real = [fr(x) for x in np.ravel(obs["log"][i][1])]
         if got_ens != want_ens:
             fails.append(f"filters: coordinate {i}: compute_loss_1d did not receive filter_i(sim[:, :, i])")
         if got_real != real[i]:
@@ -346,7 +767,9 @@ def emit_token(case, obs):
         o = f"(ObsErr (FiltersLen {cnat(out[3])} {cnat(out[4])}))"
     else:
         o = "(ObsErr (WeightsLen 0%nat 0%nat))"  # never produced by the model: forces a mismatch
-    args = clist([f"({clist([cser(s) for s in e])}, {cser(r)})" for e, r in obs["log"]])
+    # (an argument of the wrong rank - possible only on a changed tree - is emitted flattened: it cannot match the model's)
+    args = clist([f"({clist([cser(s) for s in np.atleast_2d(np.array(e, dtype=float)).reshape(-1, max(1, np.shape(e)[-1] if np.ndim(e) else 1)).tolist()])}, "
+                  f"{cser(np.ravel(np.array(r, dtype=float)).tolist())})" for e, r in obs["log"]])
     return f"({cw}, {cf}, {sim}, {real}, {o}, {args}, {cq(token_tol(case, obs))})"
 
 
@@ -368,6 +791,16 @@ def gen_spec_case(rng):
     real = [dy(rng, -4, 4, 8) for _ in range(N)]
     if rng.below(8) == 0 and kind != 3:
         ens = [list(real) for _ in range(E)]  # zero-when-equal instance
+    elif kind <= 1 and rng.below(3) == 0:
+        # round 4: Minkowski far from the origin - series at the level 2^26 (6.7e7) with O(1) dyadic variation, 1, 2 or 4 members
+        # (their mean is then exact): the definition |mean_e s_e - r|_p loses nothing (the differences are exact, measured error
+        # of the class <= 2e-16 relative), a |x|^2 + |y|^2 - 2 x.y shortcut rounds 2^52-sized squares and is off by O(N)
+        E = rng.choice([1, 2, 4])
+        lvl = 2.0 ** 26
+        same = rng.below(4) == 0
+        real = [lvl + dy(rng, -4, 4, 8) for _ in range(N)]
+        ens = [[x if same else lvl + dy(rng, -4, 4, 8) for x in real] for _ in range(E)]
+        return {"part": "spec", "kind": kind, "ens": ens, "real": real, "style": "far-from-origin"}
     elif kind >= 2 and rng.below(3) == 0:
         # series at a level that is large relative to the spread of the ensemble, members that nearly coincide (all values
         # dyadic, so that the moments are exact up to one rounding): E[m^2] - E[m]^2 style shortcuts lose everything here,
@@ -378,6 +811,10 @@ def gen_spec_case(rng):
         # measured: the definition evaluated in binary64 is within 4e-12 (relative) of the exact value on these data, a one-pass
         # variance is off by 2e-9 and more
         return {"part": "spec", "kind": kind, "ens": ens, "real": real, "rtol": 1e-10, "style": "near-coincident"}
+    if rng.below(4) == 0:
+        # round 4: whole numbers handed over as int64 / int32 arrays
+        return {"part": "spec", "kind": kind, "ens": [[float(round(x)) for x in s] for s in ens], "real": [float(round(x)) for x in real],
+                "dtype": rng.choice(["i8", "i4"]), "style": "integer-dtype"}
     return {"part": "spec", "kind": kind, "ens": ens, "real": real}
 
 
@@ -385,8 +822,9 @@ def run_spec(case):
     from black_it.loss_functions.minkowski import MinkowskiLoss
     from black_it.loss_functions.msm import MethodOfMomentsLoss
 
-    ens = np.array(case["ens"], dtype=float)[:, :, None]
-    real = np.array(case["real"], dtype=float)[:, None]
+    dt = DTYPES[case.get("dtype", "f8")]
+    ens = np.array(case["ens"], dtype=float).astype(dt)[:, :, None]
+    real = np.array(case["real"], dtype=float).astype(dt)[:, None]
     k = case["kind"]
     obj = (MinkowskiLoss(p=1) if k == 0 else MinkowskiLoss(p=2) if k == 1
            else MethodOfMomentsLoss(covariance_mat="identity", moment_calculator=token_moments_np) if k == 2
@@ -432,11 +870,12 @@ def memo_moments(s):
     """a memoising user moment calculator: returns its cached array object on a repeated series"""
     s = np.asarray(s, dtype=float)
     key = s.tobytes()
-    if key not in _MEMO:
+    v = _MEMO.get(key)
+    if v is None:
         if len(_MEMO) > 4000:
             _MEMO.clear()
-        _MEMO[key] = custom_moments(s)
-    return _MEMO[key]
+        v = _MEMO[key] = custom_moments(s)
+    return v
 
 
 def sym_matrix(seed, k):
@@ -453,6 +892,7 @@ LOSS_KINDS = [
     ("msm_identity_view_std", True, True, True), ("msm_identity_memo_std", True, True, True),
     ("msm_invvar_view", True, True, False), ("msm_identity_memo", True, True, True),
     ("msm_invvar_custom", True, True, False), ("msm_invvar_default", True, True, False),
+    ("msm_invvar_custom_std", True, True, False),
     ("msm_W_custom", True, False, False), ("msm_W_default", True, False, False),
     ("fourier_gauss", True, True, True), ("fourier_ideal", True, True, True),
     ("gsl_default", True, False, False), ("gsl_small", True, False, False),
@@ -473,8 +913,9 @@ def make_loss(case, weights, filters):
 
     k = case["kind"]
     kw = {"coordinate_weights": weights, "coordinate_filters": filters}
+    opt = public_options(case)
     if k.startswith("minkowski_p"):
-        return MinkowskiLoss(p=int(k[-1]), **kw)
+        return MinkowskiLoss(p=opt["p"], **kw)
     if k == "msm_identity_default":
         return MethodOfMomentsLoss(covariance_mat="identity", **kw)
     if k == "msm_identity_custom":
@@ -491,27 +932,55 @@ def make_loss(case, weights, filters):
         return MethodOfMomentsLoss(covariance_mat="inverse_variance", moment_calculator=view_moments, **kw)
     if k == "msm_invvar_custom":
         return MethodOfMomentsLoss(covariance_mat="inverse_variance", moment_calculator=custom_moments, **kw)
+    if k == "msm_invvar_custom_std":
+        return MethodOfMomentsLoss(covariance_mat="inverse_variance", moment_calculator=custom_moments, standardise_moments=True, **kw)
     if k == "msm_invvar_default":
         return MethodOfMomentsLoss(covariance_mat="inverse_variance", **kw)
     if k == "msm_W_custom":
         return MethodOfMomentsLoss(covariance_mat=sym_matrix(case["wseed"], 5), moment_calculator=custom_moments, **kw)
     if k == "msm_W_default":
         return MethodOfMomentsLoss(covariance_mat=sym_matrix(case["wseed"], 18), **kw)
-    if k == "fourier_gauss":
-        return FourierLoss(frequency_filter=gaussian_low_pass_filter, f=case["f"], **kw)
-    if k == "fourier_ideal":
-        return FourierLoss(frequency_filter=ideal_low_pass_filter, f=case["f"], **kw)
-    if k == "gsl_default":
-        return GslDivLoss(**kw)
-    if k == "gsl_small":
-        return GslDivLoss(nb_values=3, nb_word_lengths=2, **kw)
-    if k == "likelihood_silverman":
-        return LikelihoodLoss(h="silverman", **kw)
-    if k == "likelihood_scott":
-        return LikelihoodLoss(h="scott", **kw)
-    if k == "likelihood_h":
-        return LikelihoodLoss(h=0.9, **kw)
+    if k in ("fourier_gauss", "fourier_ideal"):
+        return FourierLoss(frequency_filter=opt["frequency_filter"], f=opt["f"], **kw)
+    if k in ("gsl_default", "gsl_small"):
+        return GslDivLoss(nb_values=opt["nb_values"], nb_word_lengths=opt["nb_word_lengths"], **kw)
+    if k.startswith("likelihood_"):
+        return LikelihoodLoss(h=opt["h"], **kw)
     raise ValueError(k)
+
+
+def public_options(case, decoy=False):
+    """the PUBLIC option attributes of the case's loss (name -> value), in the type the case asks for (round 4: numpy scalars,
+    an int where a float is usual and vice versa); decoy=True gives other values of the same options - an object built with the
+    decoy values and then reassigned the real ones must behave like one built with the real ones"""
+    from black_it.loss_functions.fourier import gaussian_low_pass_filter, ideal_low_pass_filter
+
+    k, how = case["kind"], case.get("opt_as", "plain")
+    if k.startswith("minkowski_p"):
+        p = int(k[-1])
+        if decoy:
+            p = p % 3 + 1
+        return {"p": np.int64(p) if how == "np" else float(p) if how == "alt" else p}
+    if k.startswith("fourier_"):
+        f = case["f"]
+        ff = gaussian_low_pass_filter if k == "fourier_gauss" else ideal_low_pass_filter
+        if decoy:
+            f = 0.6 if f != 0.6 else 0.4
+            ff = ideal_low_pass_filter if k == "fourier_gauss" else gaussian_low_pass_filter
+        return {"frequency_filter": ff, "f": np.float64(f) if how == "np" else 1 if how == "alt" and f == 1.0 else f}
+    if k.startswith("gsl_"):
+        nv, nw = (None, None) if (k == "gsl_default") != decoy else (3, 2)
+        if how == "np" and nv is not None:
+            nv, nw = np.int64(nv), np.int32(nw)
+        return {"nb_values": nv, "nb_word_lengths": nw}
+    if k.startswith("likelihood_"):
+        h = {"likelihood_silverman": "silverman", "likelihood_scott": "scott", "likelihood_h": 0.9}[k]
+        if decoy:
+            h = "scott" if h != "scott" else 1.3
+        elif k == "likelihood_h":
+            h = np.float64(0.9) if how == "np" else 1 if how == "alt" else 0.9
+        return {"h": h}
+    return {}
 
 
 def gen_builtin_case(rng, kind=None):
@@ -532,12 +1001,41 @@ def gen_builtin_case(rng, kind=None):
     w_as = rng.choice(["array", "list", "intarray", "intlist"])
     if w_as.startswith("int") and weights is not None:
         weights = [float(rng.randint(0, 3)) for _ in range(D)]
-    return {"part": "builtin", "kind": kind, "D": D, "E": E, "N": N, "sim": arr(E, N, D), "real": arr(N, D),
-            "weights": weights, "filters": filters, "w_as": w_as,
+    wide = rng.below(3) > 0                    # round 4: two cases in three leave the plain representation / configuration
+    Nsim = N
+    if wide:
+        if kind not in HEAVY and rng.below(4) == 0:
+            N = rng.randint(3, 5)                                              # series of length 3-5
+            Nsim = N
+        if kind.split("_")[0] in ("msm", "gsl", "likelihood") and "view" not in kind and rng.below(3) == 0:
+            Nsim = rng.randint(9, 20) if kind in HEAVY else rng.randint(max(3, N - 4), N + 6)   # sim_length != data length
+        if rng.below(8) == 0 and kind not in HEAVY:
+            D = rng.randint(11, 12)                                            # more than ten coordinates
+            N = Nsim = min(N, 8)
+            filters = None if filters is None else [None if rng.below(3) == 0 else rng.choice(sorted(NAMED_FILTERS)) for _ in range(D)]
+            weights = None if weights is None else [round(rng.uniform(0, 2), 3) if rng.below(5) else 0.0 for _ in range(D)]
+        w_as = rng.choice(W_AS)
+        if w_as.startswith("int") and weights is not None:
+            weights = [float(rng.randint(0, 3)) for _ in range(D)]
+    wscale = rng.choice([1.0, 1.0, 1e-9, 1e6]) if wide else 1.0   # all weights tiny (below any `isclose` threshold) or huge
+    if weights is not None:
+        weights = [x * wscale for x in weights]
+        if w_as == "f4array":
+            weights = [float(np.float32(x)) for x in weights]
+        if wide and rng.below(4) == 0:
+            weights = [(-0.0 if x == 0.0 else x) for x in weights]
+    extra = {}
+    if wide:
+        dts = ("f4", "i8", "i4")
+        extra = {"rep_sim": gen_repr(rng, dts), "rep_real": gen_repr(rng, dts), "opt_as": rng.choice(["plain", "np", "alt"]),
+                 "Nsim": Nsim, "scale": scale, "wscale": wscale}
+    return {"part": "builtin", "kind": kind, "D": D, "E": E, "N": N, "sim": arr(E, Nsim, D), "real": arr(N, D),
+            "weights": weights, "filters": filters, "w_as": w_as, **extra,
             "f": rng.choice([0.1, 0.3, 0.5, 0.8, 1.0]), "wseed": rng.below(1 << 30),
             "other_sim": arr(E2, N2, D), "other_real": arr(N2, D), "other_wrongD_real": arr(N2, D + 1),
             "other_wrongD_sim": arr(E2, N2, D + 1),
-            "w1": [round(rng.uniform(-2, 2), 3) for _ in range(D)], "w2": [round(rng.uniform(-2, 2), 3) for _ in range(D)],
+            "w1": [round(rng.uniform(-2, 2), 3) * wscale for _ in range(D)],
+            "w2": [round(rng.uniform(-2, 2), 3) * wscale for _ in range(D)],
             "a": round(rng.uniform(-2, 2), 3), "b": round(rng.uniform(-2, 2), 3),
             "j": rng.below(D), "perm": _perm(rng, D), "eperm": _perm(rng, E),
             "wrong_w": rng.choice([x for x in (D - 1, D + 1, D + 2, 0) if x != D and x >= 0]),
@@ -578,10 +1076,22 @@ class Rel:
             self.fails.append((name, detail))
 
 
-def close(a, b, scale):
+def close(a, b, scale, rtol=RTOL):
     if not (np.isfinite(a) and np.isfinite(b)):
         return (np.isnan(a) and np.isnan(b)) or a == b
-    return abs(a - b) <= RTOL * max(scale, 1e-300)
+    return abs(a - b) <= rtol * max(scale, 1e-300)
+
+
+def quantise(a, rep, scale=1.0):
+    """the logical float64 values the representation holds exactly: rounded to float32, or to whole numbers (eighths of the
+    case's scale) for the integer dtypes"""
+    a = np.asarray(a, dtype=float)
+    dt = (rep or {}).get("dtype", "f8")
+    if dt == "f4":
+        return a.astype(np.float32).astype(float)
+    if dt in ("i8", "i4"):
+        return np.round(a * 8.0 / scale)
+    return a
 
 
 def run_builtin(case):
@@ -589,8 +1099,16 @@ def run_builtin(case):
     kind = case["kind"]
     _, base, nonneg, zero_eq = KIND_INFO[kind]
     D, E, N = case["D"], case["E"], case["N"]
-    sim = np.array(case["sim"], dtype=float).reshape(E, N, D)
-    real = np.array(case["real"], dtype=float).reshape(N, D)
+    Nsim = case.get("Nsim", N)
+    rs, rr, sc = case.get("rep_sim"), case.get("rep_real"), case.get("scale", 1.0)
+    sim = quantise(np.array(case["sim"], dtype=float).reshape(E, Nsim, D), rs, sc)
+    real = quantise(np.array(case["real"], dtype=float).reshape(N, D), rr, sc)
+    f4 = "f4" in ((rs or {}).get("dtype"), (rr or {}).get("dtype"))
+    # float32 data: the built-in losses compute in float32 (mean / minkowski / fft of float32 arrays), two mathematically equal
+    # evaluation orders then differ by <= 7.7e-8 of (values + data magnitude) (measured over 800 cases); float64 / integer data: 1e-9
+    # (measured 4.3e-15)
+    rtol = 1e-5 if f4 else RTOL
+    mag = float(max(np.max(np.abs(sim), initial=0.0), np.max(np.abs(real), initial=0.0))) if f4 else 0.0
     fnames = case["filters"]
 
     def mkf(names):
@@ -603,12 +1121,14 @@ def run_builtin(case):
     info = {}
     pure_fail = []
 
-    def ev(obj, s, r, tag):
-        """one evaluation with byte snapshots of every input"""
-        w = obj.coordinate_weights
+    def snap_in(obj, s, bs, r, br):
         cov = getattr(obj, "_covariance_mat", None)
-        before = (s.tobytes(), r.tobytes(), w.tobytes() if isinstance(w, np.ndarray) else repr(w),
-                  cov.tobytes() if isinstance(cov, np.ndarray) else repr(cov))
+        return (snap_arr(s, bs), snap_arr(r, br), _snap_w(obj.coordinate_weights),
+                cov.tobytes() if isinstance(cov, np.ndarray) else repr(cov))
+
+    def ev_raw(obj, s, bs, r, br, tag):
+        """one evaluation on arrays that are already in their representation, with snapshots of every input"""
+        before = snap_in(obj, s, bs, r, br)
         with warnings.catch_warnings(), np.errstate(all="ignore"):
             warnings.simplefilter("ignore")
             try:
@@ -616,16 +1136,19 @@ def run_builtin(case):
                 err = None
             except Exception as e:  # noqa: BLE001
                 v, err = None, e
-        w = obj.coordinate_weights
-        cov = getattr(obj, "_covariance_mat", None)
-        after = (s.tobytes(), r.tobytes(), w.tobytes() if isinstance(w, np.ndarray) else repr(w),
-                 cov.tobytes() if isinstance(cov, np.ndarray) else repr(cov))
+        after = snap_in(obj, s, bs, r, br)
         if before != after:
             which = [n for n, x, y in zip(("sim", "real", "weights", "covariance_mat"), before, after) if x != y]
             pure_fail.append(f"{tag}: {which} changed")
         if err is not None:
             raise err
         return v
+
+    def ev(obj, s, r, tag):
+        """one evaluation of logical arrays handed over in the case's representation"""
+        s, bs = represent(s, rs)
+        r, br = represent(r, rr)
+        return ev_raw(obj, s, bs, r, br, tag)
 
     ws, fs = case["weights"], mkf(fnames)
     obj = make_loss(case, mkw(ws), fs)
@@ -635,10 +1158,10 @@ def run_builtin(case):
     R.check("purity", not pure_fail, "; ".join(pure_fail))
 
     # ---- history independence: same object, unrelated evaluations (incl. a failing one) in between
-    osim = np.array(case["other_sim"], dtype=float).reshape(-1, len(case["other_real"]), D)
-    oreal = np.array(case["other_real"], dtype=float).reshape(-1, D)
-    for s, r in ((osim, oreal), (np.array(case["other_wrongD_sim"], dtype=float).reshape(osim.shape[0], osim.shape[1], D + 1),
-                                  np.array(case["other_wrongD_real"], dtype=float).reshape(-1, D + 1))):
+    osim = quantise(np.array(case["other_sim"], dtype=float).reshape(-1, len(case["other_real"]), D), rs, sc)
+    oreal = quantise(np.array(case["other_real"], dtype=float).reshape(-1, D), rr, sc)
+    for s, r in ((osim, oreal), (quantise(np.array(case["other_wrongD_sim"], dtype=float).reshape(osim.shape[0], osim.shape[1], D + 1), rs, sc),
+                                  quantise(np.array(case["other_wrongD_real"], dtype=float).reshape(-1, D + 1), rr, sc))):
         try:
             ev(obj, s, r, "unrelated")
         except Exception:  # noqa: BLE001
@@ -649,6 +1172,93 @@ def run_builtin(case):
             f"first {v!r}, after unrelated evaluations {v_again!r}, fresh object {v_fresh!r}")
     snap1 = snap_obj(obj)
     R.check("object_state", snap0 == snap1, f"attributes changed: {sorted(k for k in set(snap0) | set(snap1) if snap0.get(k) != snap1.get(k))}")
+
+    def quiet(f):
+        try:
+            return f()
+        except Exception:  # noqa: BLE001
+            return None
+
+    # ---- round 4: data holding nan / inf / -0.0 (a diverged simulation).  Whatever the value (or the exception), the arrays come
+    # back untouched - "cleaning" the caller's array in place is a modification that ordinary data never reveal
+    if (rs or {}).get("dtype", "f8") in ("f8", "f4") and (rr or {}).get("dtype", "f8") in ("f8", "f4") and sim.size >= 3:
+        s_nf, r_nf = sim.copy(), real.copy()
+        s_nf.flat[0], s_nf.flat[s_nf.size // 2], s_nf.flat[-1] = np.nan, -0.0, np.inf
+        r_nf.flat[r_nf.size // 2] = -np.inf if case["j"] % 2 else np.nan
+        n_before = len(pure_fail)
+        quiet(lambda: ev(make_loss(case, mkw(ws), fs), s_nf, r_nf, "non-finite data"))
+        R.check("purity_nonfinite_data", len(pure_fail) == n_before, "; ".join(pure_fail[n_before:]))
+
+    # ---- round 4: the unrelated data FIRST on a fresh object, then the case's data
+    o2 = make_loss(case, mkw(ws), fs)
+    quiet(lambda: ev(o2, osim, oreal, "other_first"))
+    v_of = ev(o2, sim, real, "after_other")
+    R.check("history_other_first", bits(v_of) == bits(v), f"first evaluation of an object {v!r}, as second evaluation (other data first) {v_of!r}")
+
+    # ---- round 4: attributes reassigned after construction - the value in force is the assigned one.  An object built with OTHER
+    # weights, filters and public options (and used once with them) is given the case's weights / filters / options through
+    # its public attributes
+    o3 = make_loss(case, mkw(case["w1"]), [NAMED_FILTERS["cube"]] * D if fs is None else None)
+    for k_, v_ in public_options(case, decoy=True).items():
+        setattr(o3, k_, v_)
+    quiet(lambda: ev(o3, osim, oreal, "decoy"))
+    o3.coordinate_weights = mkw([0.5] * case["wrong_w"])          # a rejected evaluation in between
+    quiet(lambda: ev(o3, sim, real, "decoy_rejected"))
+    o3.coordinate_weights = mkw(ws)
+    o3.coordinate_filters = fs
+    for k_, v_ in public_options(case).items():
+        setattr(o3, k_, v_)
+    v_re = ev(o3, sim, real, "reassigned")
+    R.check("reassigned_attributes", bits(v_re) == bits(v),
+            f"object constructed with the options {v!r}; options assigned after construction (and after an evaluation with other "
+            f"options and a rejected one) {v_re!r}")
+
+    # ---- round 4: the caller reuses its arrays: other values first, then the case's data written into the same arrays in place
+    o4 = make_loss(case, mkw(ws), fs)
+    s4, bs4 = represent(np.roll(sim, 1, axis=1)[::-1], dict(rs or {}, readonly=False))
+    r4, br4 = represent(np.roll(real, 2, axis=0), dict(rr or {}, readonly=False))
+    quiet(lambda: ev_raw(o4, s4, bs4, r4, br4, "reused_arrays_before"))
+    overwrite(s4, sim)
+    overwrite(r4, real)
+    v_ip = ev_raw(o4, s4, bs4, r4, br4, "reused_arrays")
+    R.check("arrays_changed_in_place", bits(v_ip) == bits(v), f"{v!r} on fresh arrays, {v_ip!r} on arrays that held other values at "
+            "the previous evaluation of the same object and were overwritten in place")
+
+    # ---- round 4: two evaluations of one object at the same time (the statement makes every evaluation a function of its
+    # arguments and the options only).  The first user filter call of each thread waits for the other thread's: both evaluations
+    # are then in progress together
+    bar = [None]
+    seen = set()
+
+    def gate(f0):
+        def g(x):
+            tid = threading.current_thread().name
+            if bar[0] is not None and tid not in seen:
+                seen.add(tid)
+                try:
+                    bar[0].wait(timeout=1.0)
+                except threading.BrokenBarrierError:
+                    pass
+            return x if f0 is None else f0(x)
+        return g
+
+    fs_g = [gate(None if fs is None else fs[i]) if i == 0 else (None if fs is None else fs[i]) for i in range(D)]
+    o5 = make_loss(case, mkw(ws), fs_g)
+    ser = [quiet(lambda: ev(o5, sim, real, "serial_a")), quiet(lambda: ev(o5, osim, oreal, "serial_b"))]
+    bar[0] = threading.Barrier(2)
+    par = [None, None]
+
+    def work(k, s, r):
+        par[k] = quiet(lambda: ev(o5, s, r, f"concurrent_{k}"))
+
+    ts = [threading.Thread(target=work, args=(0, sim, real), name="c08-a"), threading.Thread(target=work, args=(1, osim, oreal), name="c08-b")]
+    for t in ts:
+        t.start()
+    for t in ts:
+        t.join()
+    bar[0] = None
+    R.check("concurrent", all((a is None and b is None) or (a is not None and b is not None and bits(a) == bits(b)) for a, b in zip(ser, par)),
+            f"one after the other {ser}, at the same time from two threads {par}")
     R.check("purity_all", not pure_fail, "; ".join(pure_fail))
 
     finite = np.isfinite(v)
@@ -666,40 +1276,42 @@ def run_builtin(case):
             singles.append(ev(o1, np.ascontiguousarray(sim[:, :, i:i + 1]), np.ascontiguousarray(real[:, i:i + 1]), f"single{i}"))
         info["singles"] = singles
     w_eff = [1.0 / D] * D if ws is None else list(ws)
+    wmag = max([abs(x) for x in w_eff] + [0.0])
     scale = sum(abs(w * s) for w, s in zip(w_eff, singles)) if base and all(np.isfinite(singles)) else abs(v)
-    R.check("ensemble_perm", close(v, v_ep, max(scale, abs(v) if finite else 0.0)), f"{v!r} vs permuted ensemble {ep}: {v_ep!r}")
+    scale_p = max(scale, abs(v) if finite else 0.0) + mag * wmag      # permutations change the float32 means by ~6e-8 * |data|
+    R.check("ensemble_perm", close(v, v_ep, scale_p, rtol), f"{v!r} vs permuted ensemble {ep}: {v_ep!r}")
 
     # ---- joint permutation of coordinates + weights + filters
     p = case["perm"]
     v_cp = ev(make_loss(case, mkw(None if ws is None else [ws[i] for i in p]), None if fs is None else [fs[i] for i in p]),
               np.ascontiguousarray(sim[:, :, p]), np.ascontiguousarray(real[:, p]), "coord_perm")
-    R.check("coord_perm", close(v, v_cp, max(scale, abs(v) if finite else 0.0)), f"{v!r} vs coordinates permuted by {p}: {v_cp!r}")
+    R.check("coord_perm", close(v, v_cp, scale_p, rtol), f"{v!r} vs coordinates permuted by {p}: {v_cp!r}")
 
     if base:
         if all(np.isfinite(singles)):
             # weighted sum of single-coordinate evaluations
             tot = sum(w * s for w, s in zip(w_eff, singles))
-            R.check("weighted_sum", close(v, tot, scale), f"{v!r} vs sum_i w_i single_i = {tot!r} (singles {singles}, weights {w_eff})")
+            R.check("weighted_sum", close(v, tot, scale, rtol), f"{v!r} vs sum_i w_i single_i = {tot!r} (singles {singles}, weights {w_eff})")
             # one-hot
             j = case["j"]
             v_oh = ev(make_loss(case, mkw([1.0 if i == j else 0.0 for i in range(D)]), fs), sim, real, "onehot")
-            R.check("onehot", close(v_oh, singles[j], abs(singles[j])), f"one-hot({j}) {v_oh!r} vs single {singles[j]!r}")
+            R.check("onehot", close(v_oh, singles[j], abs(singles[j]), rtol), f"one-hot({j}) {v_oh!r} vs single {singles[j]!r}")
             # linearity
             w1, w2, a, b = case["w1"], case["w2"], case["a"], case["b"]
             l1v = ev(make_loss(case, mkw(w1), fs), sim, real, "lin1")
             l2v = ev(make_loss(case, mkw(w2), fs), sim, real, "lin2")
             l3v = ev(make_loss(case, mkw([a * x + b * y for x, y in zip(w1, w2)]), fs), sim, real, "lin3")
             lsc = sum((abs(a * x) + abs(b * y)) * abs(s) for x, y, s in zip(w1, w2, singles))
-            R.check("linear", close(l3v, a * l1v + b * l2v, lsc), f"L(a w+b w')={l3v!r} vs a L(w)+b L(w')={a * l1v + b * l2v!r}")
+            R.check("linear", close(l3v, a * l1v + b * l2v, lsc, rtol), f"L(a w+b w')={l3v!r} vs a L(w)+b L(w')={a * l1v + b * l2v!r}")
             # zero weight removes the coordinate
             if D >= 2:
                 w0 = list(w1)
-                w0[j] = 0.0
+                w0[j] = -0.0 if case.get("wscale") else 0.0
                 keep = [i for i in range(D) if i != j]
                 z1 = ev(make_loss(case, mkw(w0), fs), sim, real, "zero1")
                 z2 = ev(make_loss(case, mkw([w0[i] for i in keep]), None if fs is None else [fs[i] for i in keep]),
                         np.ascontiguousarray(sim[:, :, keep]), np.ascontiguousarray(real[:, keep]), "zero2")
-                R.check("zero_weight", close(z1, z2, sum(abs(w0[i] * singles[i]) for i in keep)),
+                R.check("zero_weight", close(z1, z2, sum(abs(w0[i] * singles[i]) for i in keep), rtol),
                         f"weight 0 on {j}: {z1!r} vs without the coordinate: {z2!r}")
         else:
             R.skipped["nonfinite_single"] += 1
@@ -727,10 +1339,19 @@ def run_builtin(case):
     # (a configuration whose value is non-finite on generic data too - e.g. the Gaussian Fourier mask with
     #  round(f * n_freq) = 0, i.e. sigma = 0 - is degenerate for every input and left to C07)
     if zero_eq:
-        eq = np.ascontiguousarray(np.broadcast_to(real, (E, N, D)))
-        vz = ev(make_loss(case, mkw(ws), None), eq, real, "equal")
-        tolz = RTOL * (1.0 + float(np.max(np.abs(real)))) ** 2
-        if finite and np.isfinite(fb):
+        # values that both representations hold exactly
+        dts = {(rs or {}).get("dtype", "f8"), (rr or {}).get("dtype", "f8")}
+        real_c = np.array(case["real"], dtype=float).reshape(N, D)
+        real_c = (np.round(real_c * 8.0 / sc) if dts & {"i8", "i4"} else real_c.astype(np.float32).astype(float) if "f4" in dts else real_c)
+        eq = np.ascontiguousarray(np.broadcast_to(real_c, (E, N, D)))
+        vz = ev(make_loss(case, mkw(ws), None), eq, real_c, "equal")
+        tolz = (rtol * wmag if case.get("wscale") else RTOL) * (1.0 + float(np.max(np.abs(real_c)))) ** 2
+        # standardised moments divide by |real moment|: a real moment that is exactly 0 (whole-number data) makes 0/0
+        zero_mom = kind.endswith("_std") and any(
+            np.any(np.asarray((view_moments if "view" in kind else custom_moments)(real_c[:, i]), dtype=float) == 0.0) for i in range(D))
+        if zero_mom:
+            R.skipped["zero_when_equal_standardised_by_a_zero_moment"] += 1
+        elif finite and np.isfinite(fb):
             R.check("zero_when_equal", np.isfinite(vz) and abs(vz) <= tolz, f"every member equals the real data but the loss is {vz!r}")
         else:
             R.skipped["zero_when_equal_degenerate_configuration"] += 1
@@ -776,12 +1397,16 @@ def illconditioned_nonneg(chk, dist):
     mk = {"msm_invvar_default": lambda: MethodOfMomentsLoss(covariance_mat="inverse_variance"),
           "msm_invvar_custom": lambda: MethodOfMomentsLoss(covariance_mat="inverse_variance", moment_calculator=custom_moments),
           "msm_identity_default": lambda: MethodOfMomentsLoss(covariance_mat="identity"),
-          "minkowski_p2": lambda: MinkowskiLoss(p=2), "fourier_gauss": lambda: FourierLoss()}
-    for i in range(40 if chk.tier == "quick" else 400):
-        kind = sorted(mk)[i % len(mk)] if i % 2 else "msm_invvar_default"
+          "minkowski_p2": lambda: MinkowskiLoss(p=2), "fourier_gauss": lambda: FourierLoss(),
+          "minkowski_p1": lambda: MinkowskiLoss(p=1)}
+    eps = 2.0 ** -52
+    for i in range(60 if chk.tier == "quick" else 480):
+        kind = sorted(mk)[(i // 2) % len(mk)] if i % 2 else "msm_invvar_default"
         level = rng.choice([1e4, 1e6, 1e8, 1e8])
         jitter = rng.choice([1e-3, 1e-5, 1e-2])
-        E, N = rng.randint(2, 3), rng.randint(30, 60)
+        # (three members: the float mean of three numbers depends on their order and the mean of three equal floats need not be
+        #  that float - with two or four members both are exact)
+        E, N = rng.choice([3, 3, 2, 4]), rng.randint(30, 60)
         base = level + np.cumsum(np_rng.standard_normal(N))
         sim = np.stack([base + jitter * np_rng.standard_normal(N) for _ in range(E)])[:, :, None]
         real = (base + rng.uniform(0.0, 3.0))[:, None]
@@ -799,6 +1424,31 @@ def illconditioned_nonneg(chk, dist):
                           {"failed": f"oracle:nonneg: value {v!r} < 0 for series at level {level:g} whose {E} ensemble members differ by {jitter:g}",
                            "case": {"illconditioned": {"kind": kind, "level": level, "jitter": jitter, "E": E, "N": N,
                                                        "sim": sim.tolist(), "real": real.tolist()}}})
+        # round 4: the other relations far from the origin.  Reordering the members moves their float mean by an ulp of the level:
+        # measured on the unchanged tree |v - v'| <= 0.25 eps L N (Minkowski, Fourier), <= 0.4 eps L N |v| (identity MSM), <= 2e-3
+        # eps L / jitter |v| (inverse variance: the deviations r - s_j are differences of nearly equal numbers); a shortcut that
+        # squares the series first (|x|^2 + |y|^2 - 2 x.y, E[m^2] - E[m]^2) is off by eps L^2, i.e. 1e4 ... 1e8 times more.
+        # Members equal to the data: measured <= 0.22 eps L N (the mean of three equal floats is not always that float).
+        case_ = {"illconditioned": {"kind": kind, "level": level, "jitter": jitter, "E": E, "N": N, "sim": sim.tolist(), "real": real.tolist()}}
+        ep = list(range(E))
+        rng.shuffle(ep)
+        with np.errstate(all="ignore"):
+            v_ep = float(mk[kind]().compute_loss(np.ascontiguousarray(sim[ep]), real))
+        n += 1
+        dist["relation:ensemble_perm_illconditioned"] += 1
+        if np.isfinite(v) and not (np.isfinite(v_ep) and abs(v - v_ep) <= 64 * eps * level * max(N, 1.0 / jitter) * max(1.0, abs(v))):
+            chk.violation({"kind": "builtin", "loss": kind, "relation": "ensemble_perm"},
+                          {"failed": f"oracle:ensemble_perm: {v!r} vs members reordered by {ep}: {v_ep!r} (series at level {level:g}, "
+                                     f"members differing by {jitter:g})", "case": case_})
+        if kind in ("minkowski_p1", "minkowski_p2", "fourier_gauss", "msm_identity_default"):
+            with np.errstate(all="ignore"):
+                vz = float(mk[kind]().compute_loss(np.ascontiguousarray(np.broadcast_to(real, (E, N, 1))), real))
+            n += 1
+            dist["relation:zero_when_equal_illconditioned"] += 1
+            if not (np.isfinite(vz) and abs(vz) <= 16 * eps * level * N):
+                chk.violation({"kind": "builtin", "loss": kind, "relation": "zero_when_equal"},
+                              {"failed": f"oracle:zero_when_equal: every member equals the real data (level {level:g}) but the loss is {vz!r}",
+                               "case": case_})
     return n
 
 
@@ -815,7 +1465,9 @@ def run(chk, replay=None):
         for f in sorted(corpus.glob("*.json")):
             cases.append(json.loads(f.read_text())["case"])
         n_token, n_spec, n_builtin = (260, 120, 64) if quick else (3000, 1200, 620)
+        n_seq = 60 if quick else 600
         cases += [gen_token_case(rng) for _ in range(n_token)]
+        cases += [gen_tokenseq_case(rng) for _ in range(n_seq)]
         cases += [gen_spec_case(rng) for _ in range(n_spec)]
         kinds = [k[0] for k in LOSS_KINDS]
         # every kind at least twice, then random
@@ -829,9 +1481,19 @@ def run(chk, replay=None):
     honours = {}
     skipped = Counter()
 
-    # ---------------- token part
+    # ---------------- token part (single cases, then the steps of the one-object histories: every step is judged - by the oracle
+    # and by the model - as the evaluation of a fresh object holding the weights / filters in force at that step)
     tok = [c for c in cases if c["part"] == "token"]
     tobs = [run_token(c) for c in tok]
+    seq_of = [None] * len(tok)
+    for sc_ in [c for c in cases if c["part"] == "tokenseq"]:
+        so = run_tokenseq(sc_)
+        dist["tokenseq:" + ("threads" if sc_["threads"] else "one-after-the-other")] += 1
+        for k_, (st, o) in enumerate(zip(sc_["steps"], so)):
+            tok.append(st)
+            tobs.append(o)
+            seq_of.append((sc_, k_))
+            dist[f"tokenseq:step={st['how']}"] += 1
     lits = [emit_token(c, o) for c, o in zip(tok, tobs)]
     bad, errors = chk.coq_mismatches("C08", IMPORTS, "check_case", CASE_T, lits, shard=20) if tok else ([], [])
     for i, (c, o) in enumerate(zip(tok, tobs)):
@@ -844,22 +1506,40 @@ def run(chk, replay=None):
         dist["token:outcome=" + ("value" if o["out"][0] == "val" else f"{o['out'][1]}:{o['out'][2]}")] += 1
         if o["rel"]:
             dist["token:rel=" + o["rel"][0]] += 1
+        for key in ("rep_sim", "rep_real"):
+            if c.get(key):
+                dist[f"token:{key[4:]}:dtype={c[key]['dtype']}"] += 1
+                dist[f"token:{key[4:]}:layout={c[key]['layout']}" + (",read-only" if c[key]["readonly"] else "")] += 1
+        dist[f"token:w_as={c['w_as']}"] += 1
+        dist[f"token:f_as={c['f_as']}"] += 1
+        if c.get("level"):
+            dist["token:far-from-origin(65536)"] += 1
+        if c.get("wscale"):
+            dist[f"token:wscale={c['wscale']:g}"] += 1
         if c["D"] >= 2 and (c["weights"] is not None or c["filters"] is not None):
             nontrivial.add(case_key(c))
+        whole = c if seq_of[i] is None else dict(seq_of[i][0], failing_step=seq_of[i][1])
         if fails:
-            chk.violation({"kind": "token", "clause": fails[0].split(":")[0]},
-                          {"failed": "oracle:" + fails[0], "all": fails, "case": c, "observed": o})
+            chk.violation({"kind": "token" if seq_of[i] is None else "token-history", "clause": fails[0].split(":")[0]},
+                          {"failed": "oracle:" + fails[0], "all": fails, "case": whole, "observed": o})
         elif i in bad:
             chk.violation({"kind": "correspondence", "name": "compute_loss token_l1"},
                           {"failed": "correspondence:check_case (model and implementation disagree; the property oracle "
-                                     "found no failing input)", "case": c, "observed": o, "coq_case": lits[i]}, no_input=True)
+                                     "found no failing input)", "case": whole, "observed": o, "coq_case": lits[i]}, no_input=True)
     if tok:
         samples.append({"case": {k: tok[0][k] for k in ("D", "E", "N", "weights", "filters")}, "observed": tobs[0]["out"]})
     validated = len(tok) - len(bad)
 
     # ---------------- spec part
     spec = [c for c in cases if c["part"] == "spec"]
-    sobs = [run_spec(c) for c in spec]
+    sobs = []
+    for c in spec:
+        try:
+            sobs.append(run_spec(c))
+        except Exception as e:  # noqa: BLE001
+            sobs.append({"v": float("nan")})
+            chk.violation({"kind": "builtin", "loss": f"spec kind {c['kind']}", "relation": "exception"},
+                          {"failed": f"oracle:unexpected exception {type(e).__name__}: {e}", "case": c})
     keep = [i for i, o in enumerate(sobs) if np.isfinite(o["v"])]
     skipped["spec_nonfinite(inverse variance with a zero variance)"] = len(spec) - len(keep)
     slits = [emit_spec(spec[i], sobs[i]) for i in keep]
@@ -888,6 +1568,21 @@ def run(chk, replay=None):
         relations += R.n
         skipped.update(R.skipped)
         dist[f"builtin:{c['kind']}"] += 1
+        for key in ("rep_sim", "rep_real"):
+            if c.get(key):
+                dist[f"builtin:{key[4:]}:dtype={c[key]['dtype']}"] += 1
+                dist[f"builtin:{key[4:]}:layout={c[key]['layout']}" + (",read-only" if c[key]["readonly"] else "")] += 1
+        dist[f"builtin:w_as={c['w_as']}"] += 1
+        if c.get("Nsim", c["N"]) != c["N"]:
+            dist["builtin:sim_length!=data_length"] += 1
+        if c["N"] <= 5:
+            dist["builtin:N<=5"] += 1
+        if c["D"] > 10:
+            dist["builtin:D>10"] += 1
+        if c.get("wscale", 1.0) != 1.0:
+            dist[f"builtin:wscale={c['wscale']:g}"] += 1
+        if c.get("opt_as", "plain") != "plain":
+            dist[f"builtin:options_as={c['opt_as']}"] += 1
         for k, n in R.done.items():
             dist[f"relation:{k}"] += n
         cls = c["kind"].split("_")[0]
@@ -915,8 +1610,9 @@ def run(chk, replay=None):
     cov = {
         "evaluations": relations,
         "distinct_nontrivial": len(nontrivial),
-        "rule": "evaluations = relations checked (token: value/arguments/exception case + one relational run; built-in: each "
-                "relation of the statement that applies to the class); non-trivial = D >= 2 and (token) weights or filters given",
+        "rule": "evaluations = relations checked (token: value/arguments/exception case + one relational run, every step of a "
+                "one-object history counted as a case; built-in: each relation of the statement that applies to the class); "
+                "non-trivial = D >= 2 and (token) weights or filters given",
         "samples": samples,
         "traces_validated_against_impl": validated,
         "model_impl_disagreements": len(bad) + len(sbad),
@@ -937,7 +1633,12 @@ def run(chk, replay=None):
                      "the weighted sum is modelled over Q: float rounding is outside the theorems; on the dyadic correspondence "
                      "data every float operation of compute_loss is exact (except 1/D for D in {3,5}: tolerance 1e-12)",
                      "non-finite single-coordinate values (0*inf, nan) are outside the statement: a zero weight does not "
-                     "remove a nan coordinate in IEEE arithmetic"],
+                     "remove a nan coordinate in IEEE arithmetic",
+                     "float32 data: the built-in losses compute in float32, relations between two evaluation orders are judged at "
+                     "1e-5 of (values + weight * data magnitude) (measured <= 7.7e-8); far-from-origin probe: 64 eps L max(N, 1/jitter)",
+                     "concurrent evaluations are interleaved through the user callbacks (barrier, 1 s timeout): on a machine that "
+                     "does not schedule both threads within the timeout the two evaluations run one after the other",
+                     "data are numpy arrays (compute_loss reads .shape); Python lists are accepted for weights and filters only"],
         trusted=["modelled, not verified: numpy slicing / np.array stacking in _filter_data, len() of lists and arrays",
                  "the built-in losses' numerics (scipy minkowski, numpy fft, statsmodels acf) are only observed relationally"],
     )
